@@ -36,6 +36,7 @@ ROWS = {
 def configs(tier, seed):
     q = tier == "quick"
     out = [dict(name="construct %s" % st, h="construct", st=st, R=4) for st in ("A", "B")]
+    out.append(dict(name="construct A, R=3, values of every float class (NaN, +-inf, -0.0)", h="construct", st="A", R=3, special=True))
     for st in ("A", "B"):
         for R, L in (((4, 2),) if q else ((4, 3), (5, 2)) if st == "A" else ((4, 2), (5, 2), (6, 2))):
             out.append(dict(name="history %s R=%d L=%d" % (st, R, L), h="history", st=st, R=R, L=L))
@@ -55,6 +56,9 @@ def fixtures(cfg):
     v.update({"pm%d" % i: i == 1 for i in range(6)})
     v.update(op0=0, op1=3, op2=4, a0=1, b0=3, a1=0, b1=0, a2=2, b2=2, sel0=True, sel1=False, sel2=True, sel3=False,
              nv0=0.7, nv1=0.8, nv2=0.9, nv3=1.0)
+    if cfg.get("special"):
+        return [dict(v, **{"ob0#cls": 1, "ob1#cls": 0, "ob2#cls": 2, "mk0": True, "mk1": True, "mk2": True}),
+                dict(v, **{"ob0#cls": 1, "ob1#cls": 1, "ob2#cls": 1, "mk0": False, "mk1": False, "mk2": False})]
     v2 = dict(v, op0=1, op1=0, a1=2, b1=4, op2=2)
     v3 = dict(v, op0=4, op1=2, a0=0, b0=1)
     return [v, v2, v3]
@@ -64,7 +68,8 @@ def h_construct(ctx, cfg):
     np = ctx.np
     rows = ROWS[cfg["st"]][:cfg["R"]]
     R = len(rows)
-    obs = [ctx.real("ob%d" % i) for i in range(R)]
+    special = cfg.get("special")
+    obs = [(ctx.float_bits if special else ctx.real)("ob%d" % i) for i in range(R)]
     mask = [ctx.is_true(ctx.bool("mk%d" % i)) for i in range(R)]
     plates = {}
     for i, r in enumerate(rows):
@@ -73,7 +78,8 @@ def h_construct(ctx, cfg):
     try:
         s = concrete_screen(ctx, rows, observations=obs, mask=mask)
         ctx.prove(not mixed, "construction accepted only uniformly observed/unobserved plates")
-        ctx.prove(s.observation_mask.tolist() == mask and all_same(ctx, s.observations.tolist(), obs), "constructed screen keeps mask and values")
+        same_vals = all(ctx.is_true(ctx.same(a, b)) for a, b in zip(s.observations.tolist(), obs)) if special else all_same(ctx, s.observations.tolist(), obs)
+        ctx.prove(s.observation_mask.tolist() == mask and same_vals, "constructed screen keeps mask and values")
     except ValueError:
         ctx.prove(mixed, "construction rejected only a plate with mixed observation status")
     s2 = concrete_screen(ctx, rows, observations=obs)
